@@ -128,13 +128,15 @@ CLAIMED = {
               "thread harness."),
         ref="DESIGN.md section 4 C20"),
     "C04": dict(
-        technique="Coq model of the codec (pval, get_state, construct_val) with refuted-corruption theorems + schema/value correspondence",
-        text=("coq/props/C04.v over an executable Gallina model of every *_get_state function and every _construct (PyVal/CodecDump/CodecLoad, reusing the get_tree model): "
-              "C04_faithful_or_refuses_partial is a theorem on the C05 fragment (scalars, nested list/tuple/set, dict family, slices, names, operator getters; arbitrary sharing) under the decidable guard c04_ok; one refuted theorem (vm_compute witness) per "
-              "corruption class = open findings D08 (colliding keys), D09 (frozenset/deque payload), D10 (rank>=2 object arrays), D26 (property values), C04-F1, F4 (scalar subclasses, surrogate pairs); "
-              "C04_dump_pure holds by type. Everything else in the guard (dict family, arrays, user classes, sharing) is correspondence-only: the model's normalised schema AND its predicted loaded value -- including the "
-              "predicted corruption or exception class -- are compared with /repo on >= 340 generated values per run, and c04_ok => faithful-or-refuses is evaluated per case; dump purity by fingerprint before/after."),
-        note=("Trusted: harness/pval_emit.py (object -> pval term), absval/canon, numpy/scipy/json float codecs as opaque tokens, zipfile. D07 (bool keys), D25 (defaultdict keys) C04-F2 (defaultdict subclasses), C04-F3 (tuple subclasses) and C04-F5 (bytes / bytearray subclasses, numpy.bytes_) repaired in /repo."),
+        technique="Coq model of the codec (pval, get_state, construct_val): faithful-or-refuses theorem on the C05 fragment, refusal theorems (same-spelling keys, unsupported values), one refuted theorem per remaining corruption class + schema/value correspondence",
+        text=("coq/props/C04.v (15 theorems) over an executable Gallina model of every *_get_state function and every _construct (PyVal/CodecDump/CodecLoad, reusing the get_tree model): "
+              "C04_faithful_or_refuses_partial is a theorem on the C05 fragment (scalars, nested list/tuple/set, dict family, slices, names, operator getters, arrays, sparse, dtype, masked, RNGs, partial, bytes/bytearray, rank-1 object arrays; arbitrary sharing) under the decidable guard c04_ok "
+              "(tuple, defaultdict and bytes subclasses keep their class: C04-F2/F3/F5 repaired); REFUSALS: C04_same_spelling_refused -- any dict or defaultdict with two kept keys of one JSON spelling, anywhere inside a value, makes dumps raise (induction over entries and position; "
+              "C04_same_spelling_order: earlier values' exceptions win, later values are not serialised, property-valued entries are skipped first: D08 repaired in /repo), C04_unsupported_refused; one refuted theorem (vm_compute witness) per remaining corruption class = open findings "
+              "D09 (frozenset/deque payload), D10 (rank>=2 object arrays), D26 (property values), C04-F1, F4 (scalar subclasses, surrogate pairs); C04_dump_pure holds by type. Beyond the fragment (user classes, object arrays of other ranks) correspondence-only: the model's normalised schema AND its "
+              "predicted loaded value -- including the predicted corruption, refusal or exception class -- are compared with /repo on >= 350 generated values per run, and c04_ok => faithful-or-refuses is evaluated per case; dump purity by fingerprint before/after."),
+        note=("Trusted: harness/pval_emit.py (object -> pval term), absval/canon (self-tested each run), numpy/scipy/json float codecs as opaque tokens, zipfile. D07 (bool keys), D08 (same-spelling keys), D25 (defaultdict keys), C04-F2 (defaultdict subclasses), "
+              "C04-F3 (tuple subclasses) and C04-F5 (bytes / bytearray subclasses, numpy.bytes_) repaired in /repo."),
         ref="DESIGN.md section 4 C04"),
     "C05": dict(
         technique='Coq round-trip theorem at the real entry points (containers, dict family, arrays, sparse, dtype, masked, RNGs, partial, bytes/bytearray, rank-1 object arrays; arbitrary sharing) + per-case vm_compute of the model round trip + implementation cycles',
@@ -159,8 +161,8 @@ CLAIMED = {
         ref="DESIGN.md section 4 C07"),
     "C12": dict(
         technique='Coq proofs: schema well-formedness, flat member names, members = file references (induction over the dump model); sink/compression independence as a theorem over the file-operation model with the zip container as read-back oracle, composed with the round trip; archive/sink/compression checks on the implementation',
-        text=("coq/props/C12.v: C12_schema_wf (induction over pval, guard no_rank0: root carries protocol and version; every loader-child state has __loader__ in the model's loader set, __class__, __module__, __id__), C12_flat_names for every value (each member name is flat and of the shape <id>.npy / <id>.npz / u<n>.bin / schema.json; uses injectivity of the decimal rendering of ids), C12_members_exact_partial (members written = file references of the schema, under the no-colliding-keys guard; induction over all kinds) with C12_members_exact_refuted (finding C12-F1), C12_loader_registered (per run), C12_sink_compression_independent (for EVERY value that dumps, every target -- dumps' return value, a path, an open binary file -- and every compression method/level the bytes that reach the target are the one complete buffer and unzip to the same archive; coq/sys/SinkFacts.v over Dump.v), C12_any_sink_loads_equal_partial (composition with C05: that archive loads to the dumped value on the fragment), C12_failing_dump_delivers_nothing. On the implementation: namelist (as a multiset) vs schema file refs, name regexes, and a 4 sinks x 8 compression configs product (incl. members of several hundred kB that compress 1000:1) compared after id/uuid normalisation and loaded back."),
-        note=('Trusted: zipfile (container, codecs) = the read-back oracle hypothesis of the sink theorems; harness normaliser. Open: C12-F1.'),
+        text=("coq/props/C12.v: C12_schema_wf (induction over pval, guard no_rank0: root carries protocol and version; every loader-child state has __loader__ in the model's loader set, __class__, __module__, __id__), C12_flat_names for every value (each member name is flat and of the shape <id>.npy / <id>.npz / u<n>.bin / schema.json; uses injectivity of the decimal rendering of ids), C12_members_exact_partial (members written = file references of the schema for EVERY value that dumps, guard no_rank0 only: colliding and non-JSON keys are refusals; induction over all kinds) with C12_colliding_keys_refused (the former C12-F1 witness), C12_loader_registered (per run), C12_sink_compression_independent (for EVERY value that dumps, every target -- dumps' return value, a path, an open binary file -- and every compression method/level the bytes that reach the target are the one complete buffer and unzip to the same archive; coq/sys/SinkFacts.v over Dump.v), C12_any_sink_loads_equal_partial (composition with C05: that archive loads to the dumped value on the fragment), C12_failing_dump_delivers_nothing. On the implementation: namelist (as a multiset) vs schema file refs, name regexes, and a 4 sinks x 8 compression configs product (incl. members of several hundred kB that compress 1000:1) compared after id/uuid normalisation and loaded back."),
+        note=('Trusted: zipfile (container, codecs) = the read-back oracle hypothesis of the sink theorems; harness normaliser. C12-F1 repaired in /repo (with D08).'),
         ref="DESIGN.md section 4 C12"),
 }
 
